@@ -479,7 +479,13 @@ impl Write for FailWriter {
         let mut s = self.st.borrow_mut();
         let k = s.calls;
         s.calls += 1;
-        if self.failat >= 0 && (k as u64) >= (self.failat as u64) {
+        // failat >= 1_000_000 encodes "fail ONLY at call failat - 1_000_000" (later calls are accepted again)
+        let fails = if self.failat >= 1_000_000 {
+            (k as u64) == ((self.failat - 1_000_000) as u64)
+        } else {
+            self.failat >= 0 && (k as u64) >= (self.failat as u64)
+        };
+        if fails {
             return Err(io::Error::other("boom"));
         }
         s.accepted.extend_from_slice(buf);
